@@ -33,6 +33,14 @@ def shapes(rnd, quick, k):
     for _ in range(rnd.randint(2, 4)):
         gm |= 1 << rnd.randrange(32)
     out.append(("manysat", {"DF394": sm, "DF395": gm, "DF396": "dense"}))
+    # the legal maximum of the cell mask: Nsat x Nsig = 64 (16 x 4, 8 x 8 - every identity gets one of them)
+    if k % 2:
+        sm64 = sum(1 << p for p in rnd.sample(range(64), 16))
+        gm64 = sum(1 << p for p in rnd.sample(range(32), 4))
+    else:
+        sm64 = sum(1 << p for p in rnd.sample(range(64), 8))
+        gm64 = sum(1 << p for p in rnd.sample(range(32), 8))
+    out.append(("cells64", {"DF394": sm64, "DF395": gm64, "DF396": "random"}))
     if not quick:
         # all 32 signals for 2 satellites (64 cells), and 64 satellites x 1 signal
         out.append(("allsig", {"DF394": (1 << 63) | (1 << 20), "DF395": (1 << 32) - 1, "DF396": "full"}))
